@@ -76,4 +76,10 @@ def run(ck, facts, tier):
                 near.add(_callee(t) or "")
     exprwalk.run(ck, facts, "C10.recursion-predicate", only=lambda f: f.path in near)
     exprwalk.run_gating(ck, facts, "C10.recursion-gating", only=lambda f: f.path in near)
+    # binders of quoted code are rebuilt from their names at expansion time; blocks of generated code are scoped by the
+    # MIR generator (shared with C16)
+    from . import c16
+
+    c16.rule_name_spelling(ck, facts)
+    c16.rule_block_scope(ck, facts)
     ck.not_decided("that consistently renaming a binder inside a macro body leaves program outputs unchanged (behavioural)")
